@@ -299,6 +299,10 @@ type Contract struct {
 	Safety    []string // classes of automatic obligations claimed: nil idx slice div wrap conv assert map
 	SafetyProps []string
 	Opts      map[string]string
+	AllLoopInv []*Clause  // invariants added to every loop (schemas)
+	Protect    []string   // heaps that must not change on pre-existing objects (schemas)
+	ProtectProps []string
+	At         map[string][]*Clause // positional lemmas: anchor -> clauses
 	GhostSets [][2]string // location, expression: ghost assignments executed at function exit
 	LeafEnsures  []*Clause // (interface methods) hold only for receivers implemented outside the package
 	LeafModifies []string
@@ -333,6 +337,7 @@ type SpecFile struct {
 	Ghosts    []*GhostField
 	GhostVars [][2]string // global ghost variables: name, type
 	Consts    [][3]string // const checks: name, expected value, props
+	GlobalInvs [][2]string // facts about package-level variables (established by initialisation), file:line
 	TypeInvs  [][3]string // struct type, expression over "self", file:line
 }
 
@@ -477,6 +482,8 @@ func ParseSpecLines(sf *SpecFile, file string, lines []string, trusted bool) err
 				return errf("ghostfield T name type")
 			}
 			sf.Ghosts = append(sf.Ghosts, &GhostField{fields[1], fields[2], fields[3]})
+		case "globalinv":
+			sf.GlobalInvs = append(sf.GlobalInvs, [2]string{rest, l.at})
 		case "typeinv":
 			if len(fields) < 3 {
 				return errf("typeinv T expr")
@@ -549,6 +556,27 @@ func ParseSpecLines(sf *SpecFile, file string, lines []string, trusted bool) err
 				default:
 					return errf("leaf ensures|modifies")
 				}
+			case "at":
+				// at <anchor> lemma expr
+				if len(fields) < 4 {
+					return errf("at <anchor> lemma <expr>")
+				}
+				anchor := fields[1]
+				sub, ltags := parseTags(fields[2])
+				if sub != "lemma" && sub != "assume" {
+					return errf("at <anchor> lemma|assume <expr>")
+				}
+				body := strings.TrimSpace(rest[strings.Index(rest, fields[2])+len(fields[2]):])
+				e, err := ParseSpecExpr(body)
+				if err != nil {
+					return errf("%v", err)
+				}
+				if cur.At == nil {
+					cur.At = map[string][]*Clause{}
+				}
+				cur.At[anchor] = append(cur.At[anchor], &Clause{Kind: sub, Props: ltags, Src: body, Expr: e, Line: l.at})
+			case "trusted":
+				cur.Trusted = true
 			case "pure":
 				cur.Pure = true
 				cur.HasMod = true
